@@ -20,7 +20,9 @@ ENGINES = {
 }
 
 # property: list of parts (engine, quick_runs, share of the thorough time budget); thorough budget in seconds
-THOROUGH_S = 1500
+THOROUGH_S = 1200
+# component engines saturate their state space much earlier than the node engines
+THOROUGH_BY_PROP = {"C17": 300, "C11": 400, "C03": 600, "C16": 800, "C05": 700, "C09": 700, "C14": 700, "C19": 700, "C06": 900, "C13": 900, "C20": 800}
 PARTS = {
     "C01": [("csim", 280, 1.0)],
     "C02": [("csim", 280, 1.0)],
@@ -252,6 +254,10 @@ def write_evidence(prop, tier, seed, level, results, wall, violations, rule, ext
     p = os.path.join(OUT, "evidence", prop + ".json")
     json.dump(ev, open(p + ".tmp", "w"), indent=1, default=str)
     os.replace(p + ".tmp", p)
+    if tier == "thorough":
+        # the evidence file is rewritten by every run; the last thorough run is kept next to it
+        os.makedirs(os.path.join(OUT, "evidence_thorough"), exist_ok=True)
+        json.dump(ev, open(os.path.join(OUT, "evidence_thorough", prop + ".json"), "w"), indent=1, default=str)
 
 
 def report(prop, results, failures, determinism):
@@ -354,7 +360,7 @@ def check_parts(prop, tier, seed, parts, level="exploration", rule=None, extra_e
             if tier == "quick":
                 nruns, budget = quick_runs, 900
             else:
-                nruns, budget = 10 ** 7, int(THOROUGH_S * share)
+                nruns, budget = 10 ** 7, int(int(os.environ.get("VERIF_THOROUGH_S", THOROUGH_BY_PROP.get(prop, THOROUGH_S))) * share)
             if os.environ.get("VERIF_RUNS"):
                 nruns = int(os.environ["VERIF_RUNS"])
             results, failures = run_workers(binp, e["test"], prop, seed, nruns, budget, outdir, extra_env=extra_env,
